@@ -337,7 +337,7 @@ pub fn run(run: &mut Run) {
         }
     });
     if !miri {
-        let n = run.tier.n(40, 1500);
+        let n = run.tier.n(1500, 40_000);
         run.sub("interleaver-random-large", n, |l, _idx, rng| {
             let c = *rng.pick(&[2usize, 3, 4, 5, 8, 16, 45, 90, 180, 360]);
             let r = rng.range(13, 180);
